@@ -64,6 +64,11 @@ class Attribute:
 
         self._unit_checker = Unit.make_converter("units", soft=True, allow_none=True)
 
+        # numbers of assignments made through the 'value' and 'units' setters (used to tell values derived from data
+        # apart from values assigned later by the user)
+        self.n_value_assignments = 0
+        self.n_units_assignments = 0
+
     @staticmethod
     def _check_type(value: Any, *expected_types: type, allow_none: bool = False) -> None:
         """Check that value is an instance of the expected type. If not, raise a TypeError."""
@@ -97,6 +102,7 @@ class Attribute:
         """Set a new value of the attribute. Use the provided converter (if any) to transform/validate the value."""
 
         self._value = self.convert_value(val)
+        self.n_value_assignments += 1
 
     @property
     def representation_code(self) -> Union[RepresentationCode, None]:
@@ -153,6 +159,7 @@ class Attribute:
             raise RuntimeError(f"Units of {self.__class__.__name__} cannot be set")
 
         self._units = self._unit_checker(units)  # the checker converts a Unit enum member to its (str) value
+        self.n_units_assignments += 1
 
     @property
     def count(self) -> Union[int, None]:
